@@ -124,12 +124,14 @@ PROPS["C02"] = dict(
          "(checker and builder). (E) key swap: the object holds a default key whose alg attribute pins its algorithm "
          "(setkey with no or the matching explicit algorithm) and the callback hands over another key of the same family "
          "that has no alg attribute and names no algorithm (checker: token signed by that key under the default key's "
-         "algorithm; builder: generate). (F) the object holds a key whose alg attribute pins its algorithm and the "
-         "callback keeps that key but names another algorithm of the same family (token genuinely signed under that other"
-         " algorithm; builder: generate). Stage 'faults': every allocation request made inside jwt_checker_verify fails "
-         "once on the classic substitutions (HMAC under the public PEM / the empty key, another key, unsigned, stripped, "
-         "a sibling algorithm) through setkey and through the callback. quick uses one key per family and 9 of 16 "
-         "configured algs, thorough all. distinct = distinct cells (script hashes).",
+         "algorithm; builder: generate). (E') the same when the callback's key DOES carry an attribute (its own pin, "
+         "whatever the default key or the object says), with the callback handing back the key alone or the key and "
+         "algorithm none; (F) the object holds a key whose alg attribute pins its algorithm and the callback keeps that "
+         "key but names another algorithm of the same family (token genuinely signed under that other algorithm; builder:"
+         " generate). Stage 'faults': every allocation request made inside jwt_checker_verify fails once on the classic "
+         "substitutions (HMAC under the public PEM / the empty key, another key, unsigned, stripped, a sibling algorithm)"
+         " through setkey and through the callback. quick uses one key per family and 9 of 16 configured algs, thorough "
+         "all. distinct = distinct cells (script hashes).",
     assumptions=ASSUME_COMMON,
     level_text="The space is finite and TLC enumerates it completely within the chosen key set; the reference "
                "outcome is shown to satisfy C02 on every cell, and every cell is executed against libjwt and judged "
@@ -185,13 +187,14 @@ PROPS["C01"] = dict(
          "s zero-extended to wider widths, DER; HS: HMAC under empty and all-zero keys and, for public keys, under the "
          "PEM text; a genuine MAC that begins with / contains a zero octet offered with every later octet changed} + "
          "header/payload altered after signing + the genuine signature as LAST segment behind extra ones (h.p.AAAA.s, "
-         "h.p..s, h.p.x.y.s, h.p.s.s, h.p.s.AAAA, h.p.s.) + header re-targeted to alg none; each cell concretised 3 "
-         "(quick) / 300 (thorough) times with seed-drawn positions. Signatures are made by the driver's own signer. Stage"
-         " 'rotation': a checker holds public key A and accepts A's token; A's keyring is freed, key B loaded and given "
-         "to the checker: A's token must be refused and B's accepted, seven key pairs x both providers x 2..3 (quick) / "
-         "up to 11 (thorough) rotations, run with a zero ASan quarantine so that freed addresses are reused at once. "
-         "Callback scripts: a checker pinned to key A whose callback selects key B for exactly one token (B's token "
-         "accepted), callback removed: B's token must be refused again and A's accepted, over 6 key pairs x both "
+         "h.p..s, h.p.x.y.s, h.p.s.s, h.p.s.AAAA, h.p.s.) + header re-targeted to alg none; the genuine token followed "
+         "(or preceded) by white space - LF, CRLF, CR, LF + text, blank, TAB - as read from a file; each cell concretised"
+         " 3 (quick) / 300 (thorough) times with seed-drawn positions. Signatures are made by the driver's own signer. "
+         "Stage 'rotation': a checker holds public key A and accepts A's token; A's keyring is freed, key B loaded and "
+         "given to the checker: A's token must be refused and B's accepted, seven key pairs x both providers x 2..3 "
+         "(quick) / up to 11 (thorough) rotations, run with a zero ASan quarantine so that freed addresses are reused at "
+         "once. Callback scripts: a checker pinned to key A whose callback selects key B for exactly one token (B's token"
+         " accepted), callback removed: B's token must be refused again and A's accepted, over 6 key pairs x both "
          "providers. Refused configuration: after a setkey that is refused (algorithm of another family, algorithm "
          "without a key, a key whose alg attribute contradicts, INVAL) the unsigned, the stripped and another key's token"
          " stay refused and the genuine one accepted, 4 key pairs x 6 refused calls x both providers. Stage 'faults': "
@@ -247,11 +250,13 @@ PROPS["C14"] = dict(
          "inadmissible key/alg, key below floor, wrong family, unknown alg attribute); 17 builder causes, plus five keys "
          "that failed to import but still say \"private\" given to the builder by setkey and by its callback under four "
          "algorithms; 39 JWK defects (attribute members key_ops / use / kid / alg of the wrong JSON type on otherwise "
-         "good keys: if the item is refused it is explained) (incl. unknown kty / crv values of 300 characters); stages "
-         "faultsv / faultsg / faultsl: every allocation request made inside verify / generate / a key load fails once - "
-         "return value, error flag and message still agree, every errored item is explained; value set/get calls incl. "
-         "string values that are not UTF-8 on a fresh name, on an existing one with and without replace, and from a "
-         "generate callback (every request carries a stale error code in its jwt_value_t). distinct = distinct scripts.",
+         "good keys: if the item is refused it is explained) (incl. unknown kty / crv values of 300 characters); a clock "
+         "that moves while the call is in progress (every reading one second later) against tokens that expire / become "
+         "valid within that second: one verdict, one explanation; stages faultsv / faultsg / faultsl: every allocation "
+         "request made inside verify / generate / a key load fails once - return value, error flag and message still "
+         "agree, every errored item is explained; value set/get calls incl. string values that are not UTF-8 on a fresh "
+         "name, on an existing one with and without replace, and from a generate callback (every request carries a stale "
+         "error code in its jwt_value_t). distinct = distinct scripts.",
     assumptions=ASSUME_COMMON,
     level_text="Every externally reachable failure cause the specification knows (its reject classes) is enumerated by "
                "TLC and executed; after each call the return value, the error flag and the message-non-empty bit "
@@ -309,11 +314,13 @@ PROPS["C19"] = dict(
          "and failing each check, bad signature, unsigned, other key); two verifications on one checker (with and without"
          " its own key): the first callback selects another key, the second (a successor that returns 0 and edits the "
          "token or does nothing, or no callback after setcb(NULL, NULL)) leaves the configuration alone - tokens of both "
-         "keys; context-only updates setcb(NULL, ctx) after a refusing / key-selecting callback (the callback stays), "
-         "after setcb(NULL, NULL) (refused); stage 'faults': every allocation request made inside jwt_checker_verify "
-         "fails once on checkers whose callback rewrites the very claim the token fails on (a verify that met a fault may"
-         " refuse, it never accepts what the checker without callback refuses); every verify is repeated on an "
-         "identically configured checker without the callback and both verdicts are logged. distinct = distinct scripts.",
+         "keys; callbacks that replace ONLY the key on a checker whose default key carries an alg attribute (the "
+         "attribute says nothing about the new key); context-only updates setcb(NULL, ctx) after a refusing / "
+         "key-selecting callback (the callback stays), after setcb(NULL, NULL) (refused); stage 'faults': every "
+         "allocation request made inside jwt_checker_verify fails once on checkers whose callback rewrites the very claim"
+         " the token fails on (a verify that met a fault may refuse, it never accepts what the checker without callback "
+         "refuses); every verify is repeated on an identically configured checker without the callback and both verdicts "
+         "are logged. distinct = distinct scripts.",
     assumptions=ASSUME_COMMON,
     level_text="Programs are enumerated exhaustively up to the bound by TLC; on the specification the verdict is a "
                "function of the parsed token and the configuration after the callback, never of the callback's edits; "
@@ -327,7 +334,7 @@ PROPS["C19"] = dict(
 
 PROPS["C13"] = dict(
     level="model_checking", exhaustive=True,
-    stages=lambda tier, seed: [mc("seq", "MC_C13", "MC_C13_%s.cfg" % tier), mc("heap", "MC_C13", "MC_C13_nc.cfg", dopts=TRACK), gen("apiwalk", G.api_walks(300 if tier == "quick" else 20000, 60), dopts=TRACK)],
+    stages=lambda tier, seed: [mc("seq", "MC_C13", "MC_C13_%s.cfg" % tier), mc("heap", "MC_C13", "MC_C13_nc.cfg", dopts=TRACK), gen("rotation", G.c01_rotation(2 if tier == "quick" else 10), dopts=dict(env=G.ZEROQ)), gen("apiwalk", G.api_walks(300 if tier == "quick" else 20000, 60), dopts=TRACK)],
     rule=
          "from MC_C13: all sequences of length 4 (quick) / 5 (thorough) over 13 checker elements (verify valid, bad "
          "signature, expired, no dot, header not JSON, no alg, NULL, empty, algorithm mismatch, callback failing then "
@@ -342,8 +349,10 @@ PROPS["C13"] = dict(
          " then valid and invalid ES256 tokens); stage 'heap': sequences of 4 over 9 elements (canonical tokens of two "
          "header lengths, tokens whose header and/or payload segment is not canonically encoded - unused bits set -, a "
          "bad signature, error_clear) under an application allocator whose fresh blocks hold something else each time "
-         "(blank, NUL, '}', 'A', 0xbe, '\"'): the same answer every time whatever the heap held; a memo family: RS256 and "
-         "EdDSA (deterministic signatures) - the token just accepted, then the same signature under a payload / a header "
+         "(blank, NUL, '}', 'A', 0xbe, '\"'): the same answer every time whatever the heap held; stage 'rotation' (as in "
+         "C01, zero ASan quarantine): the checker's key ring is freed and another key loaded where the old one was, under"
+         " either provider - the verdict follows the key that is configured now; a memo family: RS256 and EdDSA "
+         "(deterministic signatures) - the token just accepted, then the same signature under a payload / a header "
          "altered after signing; every verify/generate is also performed on a freshly created twin configured by "
          "replaying the same configuration calls, and both results are logged; besides reused = fresh, every verdict must"
          " be the one the specification computes from configuration, token and clock (clause C13.function), so a "
@@ -394,18 +403,19 @@ PROPS["C05"] = dict(
          "from MC_C05: (key, algorithm) pairs of every supported type x (signing provider, verifying provider) in "
          "{openssl, gnutls}^2 x header tree class x claim tree class {flat, nested depth 6, unicode (+ empty, 63-bit "
          "integers, strings to 64 KiB in thorough)} x time configuration {default, exp+nbf offsets with clock advance, "
-         "iat off, expiry a century / 2^31+1000 s ahead, exp claims of year 9999 and LONG_MAX}; plus an application-set "
-         "typ / kid / crit header of every JSON type (integer, boolean, empty string, object, array) and JSON text with "
-         "the escape \\u0000 inside strings given to the builder's header and claims (taken or refused, what is generated "
-         "must verify); generate, then verify on a checker holding the public form with a callback that reads header and "
-         "claims. Integers beyond 2^53 are in the quick trees too. JSON trees are seeded random per case; what the "
-         "builder was given, what the token carries and what the callback read are digested by one canonicaliser (sorted,"
-         " compact) after removing alg/typ/iat/nbf/exp, which are compared member by member. Stage 'faults': 4 algorithms"
-         " x both providers x 2 time configurations with EVERY allocation request made inside jwt_builder_generate "
-         "failing once (fault enumeration as in C17, restricted to that call): whatever token is returned although an "
-         "allocation failed carries what the builder was given plus alg/typ/iat/nbf/exp. Stage 'ecdsa': 500 (quick) / "
-         "20000 (thorough) generate+verify pairs per curve and signing provider; coverage.short_rs counts signatures "
-         "whose r or s has a leading zero byte. distinct = distinct scripts.",
+         "iat off, expiry a century / 2^31+1000 s ahead, exp claims of year 9999 and LONG_MAX, the application's own iat "
+         "with the automatic one off and on}; plus an application-set typ / kid / crit header of every JSON type "
+         "(integer, boolean, empty string, object, array) and JSON text with the escape \\u0000 inside strings given to "
+         "the builder's header and claims (taken or refused, what is generated must verify); generate, then verify on a "
+         "checker holding the public form with a callback that reads header and claims. Integers beyond 2^53 are in the "
+         "quick trees too. JSON trees are seeded random per case; what the builder was given, what the token carries and "
+         "what the callback read are digested by one canonicaliser (sorted, compact) after removing alg/typ/iat/nbf/exp, "
+         "which are compared member by member. Stage 'faults': 4 algorithms x both providers x 2 time configurations with"
+         " EVERY allocation request made inside jwt_builder_generate failing once (fault enumeration as in C17, "
+         "restricted to that call): whatever token is returned although an allocation failed carries what the builder was"
+         " given plus alg/typ/iat/nbf/exp. Stage 'ecdsa': 500 (quick) / 20000 (thorough) generate+verify pairs per curve "
+         "and signing provider; coverage.short_rs counts signatures whose r or s has a leading zero byte. distinct = "
+         "distinct scripts.",
     assumptions=ASSUME_COMMON + ["JSON equality is decided on SHA-256 digests of jansson's canonical dump computed by the driver for all three sides"],
     level_text="The behaviour matrix (key/alg x provider pair x tree class x time configuration) is enumerated by TLC, "
                "which also shows that on the specification every generated token is accepted by the matching checker; "
@@ -441,13 +451,14 @@ PROPS["C12"] = dict(
          "verification key; (A'') the provider is the process's: after every selection a second thread reads, and in some"
          " scripts makes, the selection - both threads see the same provider; (B) deterministic algorithms (HS*, RS*, "
          "EdDSA): the same builder generates under provider 1 and provider 2, token digests must be equal and each "
-         "provider verifies both; randomised ones (PS*, ES*): cross acceptance; (C) all pairs of set_crypto_ops/_t calls "
-         "over 12 names (exact, case variants, padded, prefixes, unknown, empty) and ids -1..5, 99; (D) one driver "
-         "process per JWT_CRYPTO value {openssl, gnutls, GnuTLS, 'gnutls ', mbedtls, '', x, opensslgnutls, unset}. (E) "
-         "history: an unusable JWKS member, a refused RS256 and a refused ES512 token under either provider before the "
-         "verdict comparison. Each matrix cell is concretised 2 (quick) / 60 (thorough) times. (F) private OKP keys whose"
-         " x member is ANOTHER key's public half: identical tokens from both providers, mutual acceptance, acceptance by "
-         "the true public key. Stage 'rotation': sign with key A, free its keyring, load key B (same type for six pairs, "
+         "provider verifies both; randomised ones (PS*, ES*): cross acceptance; (B') the same with a 9216-bit RSA key "
+         "(larger than any size a provider may have provided for); (C) all pairs of set_crypto_ops/_t calls over 12 names"
+         " (exact, case variants, padded, prefixes, unknown, empty) and ids -1..5, 99; (D) one driver process per "
+         "JWT_CRYPTO value {openssl, gnutls, GnuTLS, 'gnutls ', mbedtls, '', x, opensslgnutls, unset}. (E) history: an "
+         "unusable JWKS member, a refused RS256 and a refused ES512 token under either provider before the verdict "
+         "comparison. Each matrix cell is concretised 2 (quick) / 60 (thorough) times. (F) private OKP keys whose x "
+         "member is ANOTHER key's public half: identical tokens from both providers, mutual acceptance, acceptance by the"
+         " true public key. Stage 'rotation': sign with key A, free its keyring, load key B (same type for six pairs, "
          "another type for three), sign, verify under both providers, 2..3 (quick) / up to 13 (thorough) rotations per "
          "script - run with a zero ASan quarantine so that the freed key's address is reused at once; the token must "
          "carry the current key's signature and both providers must accept it.",
@@ -480,7 +491,9 @@ PROPS["C06"] = dict(
          "+-2^40) against checkers with a leeway of 1, 300 and 2^40 seconds; (fuzz) seeded byte-level mutations "
          "(set/delete/insert of structural and high-bit bytes, truncation, duplication, padding to 64 KiB) of tokens the "
          "library generated itself, and random byte strings of 0..64 KiB, 250 per case, under the same eight "
-         "configurations: these constrain only 'the call returns, no sanitizer report, no leak'. Recorded under "
+         "configurations: these constrain only 'the call returns, no sanitizer report, no leak'. Under the application "
+         "allocator every block obtained from it during a case must have gone back to it when the case ends (clause "
+         "allocleak: a block released with libc free() instead is a leak to a pool or quota allocator). Recorded under "
          "ASan+UBSan, LeakSanitizer check every 20 cases and at exit, 60 s watchdog per call. distinct = distinct scripts"
          " (fuzz cases differ in every token).",
     assumptions=ASSUME_COMMON + ["byte-level inputs are generated without coverage feedback; this is weaker than a coverage-guided fuzzer"],
@@ -498,6 +511,7 @@ PROPS["C07"] = dict(
         mc("defects", "MC_C07", "MC_C07_%s.cfg" % tier),
         gen("fuzz", G.c07_fuzz(300 if tier == "quick" else 20000, 60)),
         gen("alloc", G.c07_custom_alloc(), dopts=dict(extra=("--track-alloc",))),
+        gen("switch", G.c07_switch(), dopts=dict(leak_every=1)),
     ],
     rule=
          "(defects) from MC_C07: ten valid baselines (oct, RSA private/public/PSS, P-256 private, P-384, P-521, "
@@ -515,8 +529,10 @@ PROPS["C07"] = dict(
          "through find / free_bad / item_free / free_all / jwks_free under both providers with an application allocator "
          "that is not libc's: the driver tracks every block it handed out, and a block it never handed out that reaches "
          "its free() from inside a library call is an abort. After every case the lowest free descriptor is where it was "
-         "when the case began (a FILE or descriptor left open is a leak too: clause fdleak). Defect classes include "
-         "member values with characters beyond ASCII (valid UTF-8). distinct = distinct scripts.",
+         "when the case began (a FILE or descriptor left open is a leak too: clause fdleak). Stage 'switch': keys of "
+         "every type loaded under one provider and released under the other through every removal route, leak check after"
+         " every case. Defect classes include member values with characters beyond ASCII (valid UTF-8). distinct = "
+         "distinct scripts.",
     assumptions=ASSUME_COMMON,
     level_text="The JWK defect lattice (document class x key type x member x value class) is enumerated completely by "
                "TLC and executed: set error and no items for non-JSON, exactly one item per element in order, every "
@@ -579,11 +595,12 @@ PROPS["C11"] = dict(
          "of length 2, 3, 4, 6, 7, 8 with ONE position ranging over all 255 byte values. Plus seeded random strings up to"
          " 64 KiB (valid, one foreign byte, length 1 mod 4, standard alphabet, padded) in exact-size heap buffers under "
          "ASan. Stage 'sweep': decode of the valid text of EVERY byte length 0..1100 (quick) / 0..6200 (thorough), "
-         "unpadded, padded and with one more character, and encode of the bytes (where an implementation switches between"
-         " a fixed buffer and the heap). Stage 'users' (JSON lengths to 300 quick / 1500 thorough): the codec through its"
-         " callers - token segments of every JSON length (unsigned and HS256), oct keys of every length, and JWK member "
-         "texts that are not base64url although a prefix is (an escaped NUL, then anything), through every entry point: "
-         "no key may come out. distinct = distinct batch descriptors / random cases.",
+         "unpadded, padded, with one more character and (to 96 bytes) followed by a run of 3..16 '=', and encode of the "
+         "bytes (where an implementation switches between a fixed buffer and the heap). Stage 'users' (JSON lengths to "
+         "300 quick / 1500 thorough): the codec through its callers - token segments of every JSON length (unsigned and "
+         "HS256), oct keys of every length, and JWK member texts that are not base64url although a prefix is (an escaped "
+         "NUL, then anything), through every entry point: no key may come out. distinct = distinct batch descriptors / "
+         "random cases.",
     assumptions=ASSUME_COMMON + ["jwt_base64uri_encode/_decode are called directly (internal symbols of the static library)"],
     level_text="The codec is transcribed into TLA+ (Base64.tla); TLC proves the inverse and rejection laws on the "
                "transcription over the bounded domains and checks every recorded (input, output) pair of the real "
@@ -669,7 +686,8 @@ PROPS["C20"] = dict(
          "fixture key file (RSA 512..4096, every curve incl. twelve EC keys whose x, y or d has a leading zero byte, "
          "Ed25519, Ed448; private and public PEM; oct files of 32..512 bytes), and an id-RSASSA-PSS key file (private and"
          " public): one key, imported by the library without error, same public and private components (driver "
-         "projection), fixed-width EC x/y/d; jwk2key of that JWKS, and the file it writes converted again must still be "
+         "projection), fixed-width EC x/y/d, minimal-length RSA members (no leading zero octet; fixture rsa2048z has a "
+         "private exponent one octet short); jwk2key of that JWKS, and the file it writes converted again must still be "
          "the same key, of the same type (rsaEncryption / id-RSASSA-PSS); key2jwk with several files in one invocation "
          "(every order of an oct, an RSA, an EC and an Ed25519 file, all pairs incl. repeated types): the i-th JWK must "
          "denote the i-th file's key. distinct = distinct cells.",
